@@ -279,6 +279,10 @@ func checkC01(c *Ctx) {
 
 	// (4),(5) store layer
 	c.checkC01StoreLayer()
+	// round-2 additions
+	c.checkRemovalOrder()
+	c.checkRehashDecision()
+	c.checkAdapterSeqId()
 }
 
 func posOf(c *Ctx, in ssa.Instruction) string {
